@@ -21,8 +21,8 @@ class C01 : public Check
 public:
     const char *id() { return "C01"; }
     const char *opName(int k) { return apiOpName(k); }
-    int quickRuns() { return 12000; }
-    int quickSeconds() { return 70; }
+    int quickRuns() { return 60000; }
+    int quickSeconds() { return 90; }
     int thoroughSeconds() { return 1200; }
     int cpuBudgetSec() { return 20; }
     const char *rule()
@@ -37,6 +37,27 @@ public:
 
     static void addFollowUps(Rng &r, Plan &p, int n)
     {
+        // one run in five walks through the song in steps while flipping one piece of playback state before every step
+        // (loop on/off, loop count, a seek, a song switch): "the setting changed at every position of the song"
+        if(n > 0 && r.chance(0.2))
+        {
+            int steps = (int)r.range(4, 14); int what = (int)r.below(4); bool flag = r.chance(0.5);
+            for(int i = 0; i < steps; ++i)
+            {
+                Op f;
+                switch(what)
+                {
+                case 0: f.kind = A_SET_LOOP_ENABLED; flag = !flag; f.a[0] = flag; break;
+                case 1: f.kind = A_SEEK; f.d = r.real(0.0, 12.0); break;
+                case 2: f.kind = A_SET_LOOP_COUNT; f.a[0] = (int64_t)r.range(-1, 3); break;
+                default: f.kind = r.chance(0.5) ? A_SET_LOOP_ENABLED : A_SEEK; f.a[0] = (int64_t)r.below(2); f.d = r.real(0.0, 12.0); break;
+                }
+                p.ops.push_back(f);
+                Op t; if(r.chance(0.7)) { t.kind = A_TICK_EVENTS; t.d = r.pick<double>({ 0.3, 0.7, 1.0, 1.5, 2.5, 4.0 }); t.a[0] = 2; } else { t.kind = A_PLAY; t.a[0] = r.pick<int>({ 4096, 8192 }); }
+                p.ops.push_back(t);
+            }
+            return;
+        }
         for(int i = 0; i < n; ++i)
         {
             Op o; o.kind = (int)r.pick<int>({ A_PLAY, A_PLAY, A_TICK_EVENTS, A_TICK_EVENTS, A_SEEK, A_SEEK, A_REWIND, A_SELECT_SONG, A_SELECT_SONG, A_GETTERS, A_META, A_META, A_SET_TRACK_OPTIONS, A_SET_CHANNEL_ENABLED,
